@@ -126,6 +126,7 @@ sympy_gen.generate = _sympy_generate
 casadi_api.transfer_model = _transfer
 
 A_MO, B_MO, DIR, DIR_A, TXT, OUT = "lib/A.mo", "B.mo", "d", "d/A.mo", "notes.txt", "out"
+DIR2, DIR2_A = "e", "e/sub/A.mo"
 
 
 def invoke(argv, fs, parse, model_ok, gen):
@@ -142,14 +143,14 @@ def invoke(argv, fs, parse, model_ok, gen):
         FS.cur = None
 
 
-def cli(target: int, two: int, e1: int, e2: int, e3: int, inc2: int, inc3: int, inc4: int, out_ok: int, pa: int, pb: int, pd: int, ga: int, gb: int, opt: int, wfail: int) -> int:
+def cli(target: int, two: int, e1: int, e2: int, e3: int, inc2: int, inc3: int, inc4: int, out_ok: int, pa: int, pb: int, pd: int, ga: int, gb: int, opt: int, wfail: int, inc5: int = 0) -> int:
     """
-    pre: pin(target=target, two=two, inc3=inc3) and 0 <= target <= 2
+    pre: pin(target=target, two=two, inc3=inc3, inc5=inc5) and 0 <= target <= 2 and 0 <= inc5 <= 1
     pre: all(0 <= x <= 1 for x in (two, e1, e2, e3, inc2, inc3, inc4, out_ok, wfail)) and all(0 <= x <= 2 for x in (pa, pb, pd, ga, gb, opt))
     post: _ == 0
     """
     fs = {A_MO: ("file", e1), B_MO: ("file", e2), DIR: ("dir", e3), DIR_A: ("file", e3), TXT: ("file", 1), OUT: ("dir", out_ok),
-          "__write_fails__": wfail}
+          DIR2: ("dir", 1), DIR2_A: ("file", 1), "__write_fails__": wfail}
     argv = ["-o", OUT]
     if target == 1:
         argv += ["-t", "sympy"]
@@ -169,8 +170,10 @@ def cli(target: int, two: int, e1: int, e2: int, e3: int, inc2: int, inc3: int, 
         paths.append(DIR)
     if inc4:
         paths.append(TXT)
+    if inc5:
+        paths.append(DIR2)
     argv += paths
-    parse = {A_MO: pa, B_MO: pb, DIR_A: pd}
+    parse = {A_MO: pa, B_MO: pb, DIR_A: pd, DIR2_A: 0}
     got = invoke(argv, fs, parse, {"A": ga == 0, "B": gb == 0}, {"A": ga, "B": gb})
     # ---- expected, staged as the tool documents: usage errors; else parse errors; else failing models
     usage = (1 - out_ok) + (1 - e1) + (inc2 * (1 - e2)) + (inc3 * (1 - e3))
@@ -179,7 +182,7 @@ def cli(target: int, two: int, e1: int, e2: int, e3: int, inc2: int, inc3: int, 
     if usage > 0:
         return got - usage
     # files found (all listed paths exist here)
-    nfiles = 1 + inc2 + inc3
+    nfiles = 1 + inc2 + inc3 + inc5
     if target != 2:
         perr = (1 if pa != 0 else 0) + (inc2 if pb != 0 else 0) + (inc3 if pd != 0 else 0)
         if perr > 0:
@@ -190,7 +193,7 @@ def cli(target: int, two: int, e1: int, e2: int, e3: int, inc2: int, inc3: int, 
             fail_a, fail_b = 1, 1
         return got - (fail_a + (fail_b if two else 0))
     # casadi: one file per model stem, else the model fails
-    n_a = 1 + inc3
+    n_a = 1 + inc3 + inc5
     n_b = inc2
     fail_a = 1 if (n_a != 1 or ga != 0) else 0
     fail_b = 1 if (n_b != 1 or gb != 0) else 0
@@ -225,3 +228,26 @@ def only_txt(out_ok: int, target: int) -> int:
     argv = ["-o", OUT, "-m", "A"] + ([["-t", "sympy"], ["-t", "casadi"]][target - 1] if target else []) + [TXT]
     got = invoke(argv, fs, {}, {"A": True}, {"A": 0})
     return got if out_ok else (1 if got == 1 else got)
+
+
+def twice(target: int, pa1: int, pa2: int, ga1: int, ga2: int, inc2a: int, inc2b: int, pb: int) -> int:
+    """
+    pre: 0 <= target <= 2 and all(0 <= x <= 2 for x in (pa1, pa2, ga1, ga2, pb)) and 0 <= inc2a <= 1 and 0 <= inc2b <= 1 and pin(target=target)
+    post: _ == 0
+    """
+    # two invocations in one process; between them the file's content (parse outcome), the model's outcome and the
+    # set of PATH arguments change: the second status must be what it would be in a fresh process
+    fs = {A_MO: ("file", 1), B_MO: ("file", 1), OUT: ("dir", 1), "__write_fails__": 0}
+    tgt = [[], ["-t", "sympy"], ["-t", "casadi"]][target] if target in (0, 1, 2) else []
+    def run(pa, ga, inc2):
+        argv = ["-o", OUT] + tgt + ["-m", "A", A_MO] + ([B_MO] if inc2 else [])
+        got = invoke(argv, fs, {A_MO: pa, B_MO: pb}, {"A": ga == 0, "B": True}, {"A": ga, "B": 0})
+        if target != 2:
+            perr = (1 if pa != 0 else 0) + (inc2 if pb != 0 else 0)
+            if perr > 0:
+                return got - perr
+        return got - (1 if ga != 0 else 0)
+    first = run(pa1, ga1, inc2a)
+    if first != 0:
+        return first
+    return run(pa2, ga2, inc2b)
